@@ -123,12 +123,13 @@ CHECKS = {
     "C01": dict(
         level="model_checking",
         rule="configuration (parent scope x 1-2 child kinds x 6 update methods x generateSelector x finalize hook x dynamic/server-side apply) x hook program (static 0-2, fromSpec, ordered StatefulSet-like, echoStatus) x initial cluster contents (two desired-name slots over {absent, owned, owned drifted, owned+foreign field, matching orphan, drifted orphan} x stale owned child x foreign-owned look-alike x same name in the other namespace; cluster-scoped parents: every desired child also has a same-named twin in a second namespace; some desired children carry annotations of the hook's own, omit their namespace, or echo the generated selector label) "
-             "x stale-cache deviations (thorough: partial delivery in the first 0-2 rounds); each scenario is driven `sync; deliver; gc` to quiescence within N rounds, then one more sync; quick tier = a covering sub-product; plus an end-to-end explicit-state search over CHANGES of the desired state through the real sync (parent spec = value x replicas(1-2) x a child map {a,b}/{a}/{}/absent x a list-map two/one/no items x desired child with/without a status key [x hook annotation x extra label in the thorough tier]; events: every single-field change from every reachable spec - alone, together with a sync hook that answers 500 once, and together with one refused child write -, child deleted / orphaned / drifted; hook style: builds children from scratch / returns the observed annotations / returns the observed metadata and status; InPlace, Recreate, OnDelete under dynamic apply and server-side apply, composite children and decorator attachments): after every event the controller is synced to quiescence under a fair environment and the store must equal the store of a fresh world started directly with the same spec (differential oracle); the search closes (fixpoint), so change sequences of any length are covered",
+             "x stale-cache deviations (thorough: partial delivery in the first 0-2 rounds); each scenario is driven `sync; deliver; gc` to quiescence within N rounds, then one more sync; quick tier = a covering sub-product; plus an end-to-end explicit-state search over CHANGES of the desired state through the real sync (parent spec = value x replicas(1-2) x a child map {a,b}/{a}/{}/absent x a list-map two/one/no items x desired child with/without a status key [x hook annotation x extra label in the thorough tier]; events: every single-field change from every reachable spec - alone, together with a sync hook that answers 500 once, and together with one refused child write -, child deleted / orphaned / drifted; hook style: builds children from scratch / returns the observed annotations / returns the observed metadata and status; InPlace, Recreate, OnDelete under dynamic apply and server-side apply, composite children and decorator attachments): after every event the controller is synced to quiescence under a fair environment and the store must equal the store of a fresh world started directly with the same spec (differential oracle); the search closes (fixpoint), so change sequences of any length are covered; plus rollout histories with the replica count outside the revisioned fields (revisionHistory.fieldPaths=[spec.template], hook listing the highest ordinal first; RollingRecreate / RollingInPlace; events sync, template / replicas / common change, child deleted; depth 6 (8), at most 2 (3) changes): from every reached state a fair continuation ends in the cluster a fresh start with the same spec converges to",
         units=[
             dict(pkg=COMPOSITE, test="TestVerifC01", shards=dict(quick=12, thorough=16), budget=dict(quick=600, thorough=3300)),
             dict(pkg=DECORATOR, test="TestVerifC01", shards=dict(quick=4, thorough=16), budget=dict(quick=600, thorough=3300)),
             dict(pkg=COMPOSITE, test="TestVerifC01Hist", shards=dict(quick=4, thorough=7), budget=dict(quick=600, thorough=1800)),
             dict(pkg=DECORATOR, test="TestVerifC01Hist", shards=dict(quick=3, thorough=4), budget=dict(quick=600, thorough=1800)),
+            dict(pkg=COMPOSITE, test="TestVerifC01RollHist", shards=dict(quick=8, thorough=12), budget=dict(quick=600, thorough=1800)),
         ],
         assumptions=SIM_ASSUMPTIONS + ["server-side apply is the sim's model of SSA for schemaless custom resources (per-manager applied configuration, lists atomic, force)"],
     ),
